@@ -15,6 +15,29 @@ use crate::wire::*;
 
 pub const HTTP_REQ: &[u8] = b"GET / HTTP/1.1\r\nHost: x\r\n\r\n";
 
+/// data segments of flow `f` that acknowledge ANOTHER flow's cookie (must be treated like any
+/// other wrong acknowledgement number)
+pub fn cross_ack_events(tag: &str, f: &Flow, other_tag: &str, other_cookie: u32) -> Vec<Event> {
+    let k = key_of(f);
+    let a = other_cookie.wrapping_add(1);
+    let half = HTTP_REQ.len() / 2;
+    vec![
+        Event { name: format!("{}:data-http-half2-ack=cookie({})+1", tag, other_tag), frame: f.tcp(1000, a, F_PSH | F_ACK, &HTTP_REQ[half..]), flow: Some(k.clone()), is_data: true },
+        Event { name: format!("{}:data-http-ack=cookie({})+1", tag, other_tag), frame: f.tcp(1000, a, F_PSH | F_ACK, HTTP_REQ), flow: Some(k.clone()), is_data: true },
+        Event { name: format!("{}:data-Z-ack=cookie({})+1", tag, other_tag), frame: f.tcp(1000, a, F_PSH | F_ACK, b"Z"), flow: Some(k), is_data: true },
+    ]
+}
+
+pub fn add_cross_acks(events: &mut Vec<Event>, s: &Setup) {
+    for (ta, fa) in &s.flows {
+        for (tb, fb) in &s.flows {
+            if ta != tb {
+                events.extend(cross_ack_events(ta, fa, tb, s.cookies[&key_of(fb)]));
+            }
+        }
+    }
+}
+
 pub fn tcp_events(tag: &str, f: &Flow, c: u32, rich: bool) -> Vec<Event> {
     let k = key_of(f);
     let ok = c.wrapping_add(1);
@@ -49,6 +72,13 @@ pub fn tcp_events(tag: &str, f: &Flow, c: u32, rich: bool) -> Vec<Event> {
         add(format!("data-Z+{}", n), f.tcp(1000, ok, F_PSH | F_ACK | fl, b"Z"), true);
     }
     add("data-Z+rst-badack".into(), f.tcp(1000, 5, F_PSH | F_ACK | F_RST, b"Z"), true);
+    // TCP options on a data segment (data offset 8 and 15): they are not stream data
+    for (doff, n) in [(8u8, 12usize), (15, 40)] {
+        let mut seg = TcpSeg::new(f.cport, f.sport, 0xfffffffe, ok, F_PSH | F_ACK, b"abc");
+        seg.doff = doff;
+        seg.options = vec![1u8; n];
+        add(format!("data-abc-options{}", n), f.tcp_seg(&seg), true);
+    }
     add("ack".into(), f.tcp(1000, ok, F_ACK, b""), false);
     add("rst".into(), f.tcp(1000, ok, F_RST, b""), false);
     add("rst-ack".into(), f.tcp(1000, ok, F_RST | F_ACK, b""), false);
@@ -134,15 +164,21 @@ pub fn run_c07(rep: &mut Report, thorough: bool) {
     for (tag, f) in &s.flows {
         events.extend(tcp_events(tag, f, s.cookies[&key_of(f)], thorough));
     }
+    add_cross_acks(&mut events, &s);
     let o = BfsOpts {
         stage: "bfs-c07".into(),
-        max_depth: if thorough { 10 } else { 8 },
+        max_depth: if thorough { 8 } else { 6 },
         max_states: if thorough { 300000 } else { 30000 },
         abstract_acc: true,
         differential: false,
     };
     bfs::bfs(&s.cfg, &events, &s.cookies, &o, rep);
     rep.sink.sample(serde_json::json!({"alphabet": events.iter().map(|e| e.name.clone()).collect::<Vec<_>>()}));
+    {
+        let tcfg = s.cfg.clone().with_log(crate::driver::LoggerKind::Logfmt, crate::driver::Level::Trace);
+        let o2 = BfsOpts { stage: "bfs-c07-trace".into(), max_depth: if thorough { 5 } else { 3 }, max_states: o.max_states, abstract_acc: true, differential: false };
+        bfs::bfs(&tcfg, &events, &s.cookies, &o2, rep);
+    }
     // edge cookies: flows whose cookie is 0xffffffff (valid ack = 0, the "underflow" arm), 0,
     // 0xfffffffe and 1.  The keys were found offline with the harness's own SipHash
     // (`mcx find-edge-cookies`); they are CONFIRMED against the real SYN-ACK here, and the stage
@@ -176,8 +212,9 @@ pub fn run_c07(rep: &mut Report, thorough: bool) {
     let c = s.cookies[&key_of(&f)];
     let t0 = std::time::Instant::now();
     let seqs: Vec<u32> = vec![0, 1, 0x7fffffff, 0x80000000, 0xffffff00, 0xfffffffe, 0xffffffff];
-    let lens: Vec<usize> = vec![0, 1, 2, 255, 256, 1000, 1460];
-    let total = (seqs.len() * lens.len()) as u64 + 65536;
+    let lens: Vec<usize> = vec![0, 1, 2, 255, 256, 1000, 1400];
+    let doffs: Vec<u8> = (5..=15).collect();
+    let total = (seqs.len() * lens.len() * doffs.len()) as u64 + 65536;
     let opts = RunOpts::new("arith").stateful().chunk(64).no_monitor();
     let cookies = s.cookies.clone();
     let cfg = s.cfg.clone();
@@ -186,12 +223,16 @@ pub fn run_c07(rep: &mut Report, thorough: bool) {
         total,
         &opts,
         |i| {
-            let nsl = (seqs.len() * lens.len()) as u64;
+            let nsl = (seqs.len() * lens.len() * doffs.len()) as u64;
             if i < nsl {
-                let seq = seqs[(i as usize) / lens.len()];
-                let n = lens[(i as usize) % lens.len()];
+                let d = engine::unrank(i, &[seqs.len() as u64, lens.len() as u64, doffs.len() as u64]);
+                let seq = seqs[d[0] as usize];
+                let n = lens[d[1] as usize];
                 let pl: Vec<u8> = (0..n).map(|k| b'a' + (k % 26) as u8).collect();
-                vec![Cmd::Frame(f.tcp(seq, c.wrapping_add(1), F_PSH | F_ACK, &pl))]
+                let mut seg = TcpSeg::new(f.cport, f.sport, seq, c.wrapping_add(1), F_PSH | F_ACK, &pl);
+                seg.doff = doffs[d[2] as usize];
+                seg.options = vec![1u8; (seg.doff as usize - 5) * 4];
+                vec![Cmd::Frame(f.tcp_seg(&seg))]
             } else {
                 // FIN|ACK acknowledgement sweep (reply seq = ack)
                 let a = ((i - nsl) as u32) << 16 | 0xfffe;
@@ -204,7 +245,7 @@ pub fn run_c07(rep: &mut Report, thorough: bool) {
         },
         &mut rep.sink,
     );
-    rep.stage("arith", "validated flow: 7 sequence numbers x 7 payload lengths; FIN|ACK acknowledgement high half over all 65536 values", total, t0);
+    rep.stage("arith", "validated flow: 7 sequence numbers x 7 payload lengths x data offsets 5..15 (TCP options); FIN|ACK acknowledgement high half over all 65536 values", total, t0);
 }
 
 /// SYN-sweep tuples, group by learned cookie, return colliding pairs.
@@ -258,6 +299,7 @@ pub fn run_c08(rep: &mut Report, thorough: bool) {
             }
         }
     }
+    add_cross_acks(&mut events, &s);
     events.extend(noise_events());
     let o = BfsOpts {
         stage: "bfs-c08".into(),
@@ -485,6 +527,7 @@ pub fn run_c09(rep: &mut Report, thorough: bool) {
     for (tag, f) in &s.flows {
         events.extend(tcp_events(tag, f, s.cookies[&key_of(f)], false));
     }
+    add_cross_acks(&mut events, &s);
     events.extend(noise_events());
     let o = BfsOpts {
         stage: "bfs-c09".into(),
@@ -494,6 +537,13 @@ pub fn run_c09(rep: &mut Report, thorough: bool) {
         differential: false,
     };
     bfs::bfs(&s.cfg, &events, &s.cookies, &o, rep);
+    {
+        // the same search with every log-macro argument evaluated (log level trace): behaviour
+        // must not depend on verbosity
+        let tcfg = s.cfg.clone().with_log(crate::driver::LoggerKind::None, crate::driver::Level::Trace);
+        let o2 = BfsOpts { stage: "bfs-c09-trace".into(), max_depth: o.max_depth.min(4), max_states: o.max_states, abstract_acc: true, differential: false };
+        bfs::bfs(&tcfg, &events, &s.cookies, &o2, rep);
+    }
     structured_pairs(&s.cfg, rep);
     {
         // the listed witness pair of D13 under the production key
@@ -510,10 +560,11 @@ pub fn run_c09(rep: &mut Report, thorough: bool) {
     let kinds: u64 = 12;
     let nports: u64 = if thorough { 65536 } else { 16384 };
     let total = nports * kinds;
+    for vcfg in [s.cfg.clone(), s.cfg.clone().with_log(crate::driver::LoggerKind::Console, crate::driver::Level::Trace)] {
     let opts = RunOpts::new("volume").chunk(4096).no_monitor();
-    let cfg = s.cfg.clone();
+    let cfg = vcfg.clone();
     engine::run(
-        &s.cfg,
+        &vcfg,
         total,
         &opts,
         |i| {
@@ -553,7 +604,8 @@ pub fn run_c09(rep: &mut Report, thorough: bool) {
         },
         &mut rep.sink,
     );
-    rep.stage("volume", "source ports x 12 kinds of unvalidated frames (3 SYN flag sets, 4 wrong-ack data segments, FIN|ACK, RST, ACK, UDP, ICMP), long-lived tables: size must stay 0", total, t0);
+    }
+    rep.stage("volume", "source ports x 12 kinds of unvalidated frames (3 SYN flag sets, 4 wrong-ack data segments, FIN|ACK, RST, ACK, UDP, ICMP), long-lived tables, at log level off and at trace with the console logger: size must stay 0", total * 2, t0);
     // growth exactly once per flow
     let t0 = std::time::Instant::now();
     let f = s.flows[0].1.clone();
